@@ -270,4 +270,241 @@ func bucketCases(out *vh.Out, r *vh.Rand, n int) {
 	for i := 0; i < n; i++ {
 		runBuckets(out, root, i+1, genBucketFiles(r), r)
 	}
+	for i := 0; i < n/2+4; i++ {
+		runBlockBuckets(out, r)
+	}
+	runBigBucket(out, root, r)
+}
+
+// buckets whose dictionaries are split into several tries (small block sizes, so that "a full trie", "the lone small trie"
+// and "several small tries" all occur with a handful of keys): built with model.TrieBucketBuilder, read, rewritten by
+// TrieBucket.Write (what the merger does, also when only one file holds the bucket) and read again - twice, because what
+// one rewrite produces is the input of the next compaction.
+func runBlockBuckets(out *vh.Out, r *vh.Rand) {
+	bs := r.Range(2, 6)
+	nd := r.Range(1, 3)
+	used := map[string]bool{}
+	nextV := uint32(r.Range(1, 50))
+	var dicts [][]kv
+	for d := 0; d < nd; d++ {
+		var dd []kv
+		for n := r.Range(1, 14); n > 0; n-- {
+			k := []byte{'p'}
+			if r.Chance(50) {
+				k = append(k, 'a', 'b')
+			}
+			for l := r.Range(1, 4); l > 0; l-- {
+				k = append(k, []byte("ab1.")[r.Intn(4)])
+			}
+			if used[string(k)] {
+				continue
+			}
+			used[string(k)] = true
+			dd = append(dd, kv{k, nextV})
+			nextV += uint32(r.Range(1, 3))
+		}
+		if len(dd) == 0 {
+			continue
+		}
+		sort.Slice(dd, func(i, j int) bool { return bytes.Compare(dd[i].K, dd[j].K) < 0 })
+		dicts = append(dicts, dd)
+	}
+	if len(dicts) == 0 {
+		return
+	}
+	fail := func(what string, err error) {
+		idx := out.Case(map[string]interface{}{"kind": "block-bucket", "block_size": bs, "dictionaries": dicts}, false)
+		out.Violation(idx, "bucket-failure", what+": "+err.Error(), nil)
+	}
+	var values [][]byte
+	for _, dd := range dicts {
+		var buf bytes.Buffer
+		var keys [][]byte
+		var ids []uint32
+		for _, e := range dd {
+			keys = append(keys, append([]byte(nil), e.K...))
+			ids = append(ids, e.V)
+		}
+		if err := model.NewTrieBucketBuilder(bs, &buf).Write(keys, ids); err != nil {
+			fail("build", err)
+			return
+		}
+		values = append(values, buf.Bytes())
+	}
+	load := func(vals [][]byte) (*model.TrieBucket, bool) {
+		b := model.NewTrieBucketWithBlockSize(bs)
+		for _, v := range vals {
+			if err := b.Unmarshal(v); err != nil {
+				fail("unmarshal", err)
+				return nil, false
+			}
+		}
+		return b, true
+	}
+	var probes, prefixes [][]byte
+	var ids []uint32
+	for _, dd := range dicts {
+		for _, e := range dd {
+			probes = append(probes, e.K)
+			if r.Chance(40) {
+				probes = append(probes, e.K[:len(e.K)-1])
+				prefixes = append(prefixes, e.K[:r.Intn(len(e.K)+1)])
+			}
+			if r.Chance(60) {
+				ids = append(ids, e.V)
+			}
+		}
+	}
+	prefixes = append(prefixes, []byte{}, []byte("p"), []byte("pa"), []byte("pab"))
+	ids = append(ids, 999999)
+	limits := []int{1, 2, 3, 5, 100}
+	b1, ok := load(values)
+	if !ok {
+		return
+	}
+	before := observeBucket(b1, probes, prefixes, limits, ids)
+	cur := values
+	rewrites := r.Range(1, 3)
+	for i := 0; i < rewrites; i++ {
+		b, ok := load(cur)
+		if !ok {
+			return
+		}
+		var buf bytes.Buffer
+		if err := b.Write(&buf); err != nil {
+			fail("write", err)
+			return
+		}
+		b.Release()
+		cur = [][]byte{append([]byte(nil), buf.Bytes()...)}
+	}
+	b2, ok := load(cur)
+	if !ok {
+		return
+	}
+	after := observeBucket(b2, probes, prefixes, limits, ids)
+	b1.Release()
+	b2.Release()
+	var ds []string
+	total := 0
+	for _, dd := range dicts {
+		var es []string
+		for _, e := range dd {
+			es = append(es, entCoq(e.K, e.V))
+		}
+		total += len(dd)
+		ds = append(ds, vh.List(es))
+	}
+	idx := out.Case(map[string]interface{}{"kind": "block-bucket", "block_size": bs, "dictionaries": dicts, "rewrites": rewrites}, total > bs && rewrites >= 2)
+	out.Count(fmt.Sprintf("block-bucket:rewrites:%d", rewrites))
+	out.Check(idx, fmt.Sprintf("check_bucket %s\n %s\n %s", vh.List(ds), before, after))
+}
+
+// one bucket of 70000 keys in a real dictionary family (the flusher splits it at 32767 keys, the merger at 65535), a second
+// bucket in later files so that two compactions run in which only one file holds the big bucket; judged directly (the
+// model's evaluation of 70000 pairs is not worth its time): the number of values, sampled exact lookups, and prefix
+// enumerations with limits against the sorted key list.
+func runBigBucket(out *vh.Out, root string, r *vh.Rand) {
+	dir := filepath.Join(root, "bigbucket")
+	defer os.RemoveAll(dir)
+	idx := out.Case(map[string]interface{}{"kind": "big-bucket", "keys": 70000}, true)
+	out.Count("big-bucket")
+	defer out.Check(idx, "(0%nat, 0%nat)")
+	bad := func(what string) { out.Violation(idx, "big-bucket", what, nil) }
+	st, err := kvpkg.GetStoreManager().CreateStore(dir, kvpkg.DefaultStoreOption())
+	if err != nil {
+		bad("open: " + err.Error())
+		return
+	}
+	defer func() { _ = kvpkg.GetStoreManager().CloseStore(dir) }()
+	fam, err := st.CreateFamily("names", kvpkg.FamilyOption{Merger: string(v1.IndexKVMerger), CompactThreshold: 2})
+	if err != nil {
+		bad("family: " + err.Error())
+		return
+	}
+	flush := func(bucket uint32, keys [][]byte, ids []uint32) bool {
+		kvFlusher := fam.NewFlusher()
+		defer kvFlusher.Release()
+		fl, err := v1.NewIndexKVFlusher(math.MaxInt16, kvFlusher)
+		if err != nil {
+			bad("flusher: " + err.Error())
+			return false
+		}
+		fl.PrepareBucket(bucket)
+		if err := fl.WriteKVs(keys, ids); err != nil {
+			bad("write: " + err.Error())
+			return false
+		}
+		if err := fl.CommitBucket(); err != nil {
+			bad("commit bucket: " + err.Error())
+			return false
+		}
+		if err := fl.Close(); err != nil {
+			bad("close: " + err.Error())
+			return false
+		}
+		return true
+	}
+	const n = 70000
+	var keys [][]byte
+	var ids []uint32
+	for i := 0; i < n; i++ {
+		keys = append(keys, []byte(fmt.Sprintf("host-%06d", i)))
+		ids = append(ids, uint32(i+1))
+	}
+	judge := func(stage string) bool {
+		snap := fam.GetSnapshot()
+		defer snap.Close()
+		b, err := v1.NewIndexKVReader(snap).GetBucket(1)
+		if err != nil || b == nil {
+			bad(fmt.Sprintf("%s: get bucket: %v", stage, err))
+			return false
+		}
+		defer b.Release()
+		if got := len(b.GetValues()); got != n {
+			bad(fmt.Sprintf("%s: the bucket holds %d values, %d pairs were written", stage, got, n))
+			return false
+		}
+		for j := 0; j < 200; j++ {
+			i := r.Intn(n)
+			if v, ok := b.GetValue(keys[i]); !ok || v != ids[i] {
+				bad(fmt.Sprintf("%s: GetValue(%s) = %d, %v; written %d", stage, keys[i], v, ok, ids[i]))
+				return false
+			}
+		}
+		for _, pl := range []struct {
+			p   string
+			lim int
+		}{{"host-0000", 5}, {"host-03276", 30}, {"host-0655", 40}, {"host-06999", 100}, {"host-", 3}} {
+			var want []string
+			for i := 0; i < n && len(want) < pl.lim; i++ {
+				if bytes.HasPrefix(keys[i], []byte(pl.p)) {
+					want = append(want, string(keys[i]))
+				}
+			}
+			got := b.Suggest(pl.p, pl.lim)
+			if fmt.Sprint(got) != fmt.Sprint(want) {
+				bad(fmt.Sprintf("%s: Suggest(%q, %d) = %v, the sorted map gives %v", stage, pl.p, pl.lim, got, want))
+				return false
+			}
+		}
+		return true
+	}
+	if !flush(1, keys, ids) || !judge("one file") {
+		return
+	}
+	for round := 1; round <= 2; round++ {
+		// two more files (Compact starts a job with two or more level-0 files), neither of which holds bucket 1
+		for k := 0; k < 2; k++ {
+			if !flush(2, [][]byte{[]byte(fmt.Sprintf("zone-%d-%d", round, k))}, []uint32{uint32(900000 + 10*round + k)}) {
+				return
+			}
+		}
+		fam.Compact()
+		time.Sleep(2 * time.Millisecond)
+		kvpkg.VerifWaitBackground(fam)
+		if !judge(fmt.Sprintf("after compaction %d (only one file holds the bucket)", round)) {
+			return
+		}
+	}
 }
